@@ -19,7 +19,10 @@ RULE = (
     "return carries the must-facts `x.project == project` and `version_req.matches(&x.version)`. R3 (highest first) in "
     "resolve_version_from_latest a slice sort_by on pubfile.releases has returned on every path to the first-match loop, "
     "its comparator closure is Ord::cmp(&b.version, &a.version) (descending), the Ok(..) return carries the must-fact "
-    "version_req.matches(&release.version) and the loop iterates the sorted pubfile.releases."
+    "version_req.matches(&release.version) and the loop iterates the sorted pubfile.releases. R4 (distinct names) in gen_locks the "
+    "value reserved by name_table.insert and the name stored in the Lock are the same local (the possibly suffixed name), reserved on "
+    "every path before the Lock is built. R5 (locked release first) in every caller of gen_locks (new, update) self.lock_table is not "
+    "cleared, taken or modified before gen_locks runs: resolve_version_from_lockfile reads it."
 )
 
 CRATES = ["veryl_metadata", "veryl_path"]
@@ -199,4 +202,113 @@ def run(world, tier, info, only=None):
                       site(w.fns[RVT], st[3]), "Ok(release) is returned only where version_req.matches(&release.version)")
     ck.floor("R3", "Ok(..) returns in resolve_version_from_latest", n_ok, 1)
     ck.analysed = {"lockfile_functions": len(lf_fns), "hash_iteration_sites": n_sites, "functions_with_cfg": [RV, RVL, RVT]}
+    # ---------------- R4 distinct names -----------------------------------------------------------------
+    import flow
+    GL = LF + "Lockfile::gen_locks"
+    g = Fn(w.mir(GL))
+    mg = MustFacts(g)
+    sg = w.fns[GL]
+
+    def root_local(op):
+        """the named local an operand is a clone / reference / copy of"""
+        if op[0] == "k":
+            return None
+        l = op[1][0]
+        for _ in range(10):
+            if g.name(l):
+                return l
+            d = g.def_of(l)
+            if not d:
+                return None
+            if d[0] == "c":
+                t = g.blocks[d[1]]["t"]
+                if t["args"] and t["args"][0][0] != "k" and flow.TRANSPARENT.search(t.get("callee") or ""):
+                    l = t["args"][0][1][0]
+                    continue
+                return None
+            rv = g.rvalue_at(d)
+            if rv[0] in ("ref", "ptr"):
+                if rv[2][1] and [q for q in rv[2][1] if q != "*"]:
+                    return ("proj", rv[2][0], tuple(str(q) for q in rv[2][1]))
+                l = rv[2][0]
+            elif rv[0] == "use" and rv[1][0] != "k":
+                if rv[1][1][1] and [q for q in rv[1][1][1] if q != "*"]:
+                    return ("proj", rv[1][1][0], tuple(str(q) for q in rv[1][1][1]))
+                l = rv[1][1][0]
+            else:
+                return None
+        return None
+    inserts = [(bi, t) for bi, t in g.calls(r"hash::set::HashSet::<T, S, A>::insert$") if (g.name(_rl(g, t["args"][0])) or "") == "name_table"]
+    ck.floor("R4", "name_table.insert calls in gen_locks", len(inserts), 1)
+    lock_aggs = []
+    for bi, b in enumerate(g.blocks):
+        if b.get("cu"):
+            continue
+        for si, st in enumerate(b["s"]):
+            if st[0] == "=" and st[2][0] == "agg" and isinstance(st[2][1], dict) and (st[2][1].get("adt") or "").endswith("lockfile::Lock"):
+                lock_aggs.append((bi, si, st))
+    ck.floor("R4", "Lock constructions in gen_locks", len(lock_aggs), 1)
+    fl = [x["name"] for x in w.adts[LF + "Lock"]["variants"][0]["fields"]] if LF + "Lock" in w.adts else []
+    for bi, si, st in lock_aggs:
+        ops = dict(zip(fl, st[2][2]))
+        nm_root = root_local(ops["name"]) if "name" in ops else None
+        ins_roots = [root_local(t["args"][1]) for _, t in inserts]
+        same = nm_root is not None and nm_root in ins_roots
+        ck.ob("R4", "reserved-name-is-lock-name", same, site(sg, st[3]),
+              "the name reserved in name_table is the name given to the Lock (same local `%s`)" % (g.name(nm_root) if isinstance(nm_root, int) else nm_root) if same else
+              "name_table reserves %s but the Lock is named from %s: a suffixed name is never reserved, so a third project with the same declared name "
+              "gets the same suffix" % ([g.name(r) if isinstance(r, int) else r for r in ins_roots], g.name(nm_root) if isinstance(nm_root, int) else nm_root))
+        F = mg.at_entry(bi) or ()
+        ck.ob("R4", "name-reserved-before-lock", any(("calledbb", ib) in F for ib, _ in inserts), site(sg, st[3]), "the name is reserved on every path before the Lock is built")
+    # the chosen suffix was tested against the table: inside the suffix loop the break is taken only under !contains(new_name)
+    cont = g.calls(r"hash::set::HashSet::<T, S, A>::contains$")
+    ck.floor("R4", "name_table.contains tests in gen_locks", len(cont), 2)
+    # ---------------- R5 resolution sees the lock table as loaded ------------------------------------------------------
+    callers = sorted(p for p, sm in w.fns.items() if p.startswith(LF) and not sm.get("alias_of") and p != GL and any(c["c"] == GL for c in sm["calls"]))
+    ck.floor("R5", "callers of gen_locks", len(callers), 2)
+    MUTL = r"HashMap::<K, V, S, A>::(clear|insert|remove|drain|retain|entry)$|^core::mem::(take|replace|swap)$"
+    for p in callers:
+        sm = w.fns[p]
+        f = Fn(w.mir(p))
+        gls = f.calls("^" + re.escape(GL) + "$")
+        muts = []
+        for bi, t in f.calls(MUTL):
+            r, pth = flow.access_path(f, t["args"][0])
+            if pth[-1:] == ("lock_table",) and r[0] == "arg":
+                muts.append((bi, t))
+        for bi, b in enumerate(f.blocks):
+            if b.get("cu"):
+                continue
+            for st in b["s"]:
+                if st[0] == "=" and [q for q in st[1][1] if isinstance(q, list) and q[0] == "f"][-1:] and [q for q in st[1][1] if isinstance(q, list) and q[0] == "f"][-1][2] == "lock_table" and 1 <= st[1][0] <= f.nargs:
+                    muts.append((bi, {"l": st[3], "callee": "assignment", "to": None}))
+        early = []
+        for gb, gt in gls:
+            for mb, mt in muts:
+                if mb != gb and f.reaches(mb, gb):
+                    early.append((mt.get("callee", "?").split("::")[-1], mt["l"]))
+        ck.ob("R5", "lock-table-intact-before-resolution:%s" % p.split("::")[-1], not early, site(sm, gls[0][1]["l"] if gls else None),
+              "self.lock_table is not modified before gen_locks consults it" if not early else
+              "self.lock_table is modified (%s) before gen_locks runs: resolve_version_from_lockfile then finds no locked release and every "
+              "dependency jumps to its latest matching release" % early[:2])
     return ck.finish(info)
+
+
+def _rl(g, op):
+    if op[0] == "k":
+        return 0
+    l = op[1][0]
+    for _ in range(8):
+        if g.name(l):
+            return l
+        d = g.def_of(l)
+        if not d or d[0] != "s":
+            return l
+        rv = g.rvalue_at(d)
+        if rv[0] in ("ref", "ptr"):
+            l = rv[2][0]
+        elif rv[0] == "use" and rv[1][0] != "k":
+            l = rv[1][1][0]
+        else:
+            return l
+    return l
